@@ -1,6 +1,7 @@
 //! Utilities
 
-use crate::error::Result;
+use crate::error::{Error, Result};
+use std::collections::TryReserveError;
 use std::fmt;
 
 pub trait StrExt {
@@ -17,13 +18,15 @@ impl StrExt for str {
     }
 }
 
-#[repr(transparent)]
-struct StrBuf(String);
+struct StrBuf(String, Option<TryReserveError>);
 
 impl fmt::Write for StrBuf {
     #[inline]
     fn write_str(&mut self, s: &str) -> fmt::Result {
-        self.0.try_reserve(s.len()).map_err(|_| fmt::Error)?;
+        if let Err(e) = self.0.try_reserve(s.len()) {
+            self.1 = Some(e);
+            return Err(fmt::Error);
+        }
         self.0.push_str(s);
         Ok(())
     }
@@ -33,9 +36,17 @@ impl fmt::Write for StrBuf {
 pub fn try_format(args: fmt::Arguments<'_>) -> Result<String> {
     use fmt::Write;
 
-    let mut output = StrBuf(String::new());
-    output.write_fmt(args)?;
-    Ok(output.0)
+    let mut output = StrBuf(String::new(), None);
+    match output.write_fmt(args) {
+        Ok(()) => Ok(output.0),
+        // Report the allocation failure itself. Converting the `fmt::Error`
+        // with `?` would format it through `try_format` again and never
+        // terminate while allocations keep failing.
+        Err(_) => match output.1 {
+            Some(e) => Err(Error::TryReserveError(e)),
+            None => Err(Error::FormatError(String::new())),
+        },
+    }
 }
 
 macro_rules! try_format {
